@@ -318,6 +318,9 @@ func Gen(c *core.Chooser, p *PDU, o GenOpt) *Msg {
 		}
 		break
 	}
+	if o.Shape == 0 && !o.BodyNoNul && c.Prob(1, 10) {
+		codedBody(c, m)
+	}
 	if o.Shape == 0 && c.Prob(1, 8) {
 		coincide(c, m)
 	}
@@ -325,6 +328,60 @@ func Gen(c *core.Chooser, p *PDU, o GenOpt) *Msg {
 		reportBody(c, m)
 	}
 	return m
+}
+
+// codedBody makes the body what its data-coding field says: a short text in that coding (UTF-16BE for the UCS-2
+// numbers of the protocols, octets as they are otherwise), with the things senders put around a text - a signature in
+// full-width or ASCII brackets in front of it or behind it, a byte-order mark, a trailing line break.
+func codedBody(c *core.Chooser, m *Msg) {
+	var coding, body *Field
+	for _, f := range m.PDU.Fields {
+		switch {
+		case f.Name == "Msg_Fmt" || f.Name == "MsgFormat" || f.Name == "MessageCoding" || f.Name == "data_coding":
+			coding = f
+		case f.Kind == KOctets && f.Ref != "":
+			body = f
+		}
+	}
+	if coding == nil || body == nil || m.F[coding.Name] == nil || m.F[body.Name] == nil {
+		return
+	}
+	fmtv := []uint64{0, 3, 4, 8, 9, 15, 25, 24}[c.Intn(8)]
+	core := []string{"hello", "\u4f60\u597d", "Your code is 1234", "\u9a8c\u8bc1\u7801 8841"}[c.Intn(4)]
+	sign := []string{"\u3010\u7b7e\u540d\u3011", "[Sign]", "\u3010A\u3011", "[]", "\u3010\u3011"}[c.Intn(5)]
+	var text string
+	switch c.Intn(5) {
+	case 0:
+		text = sign + core
+	case 1:
+		text = core + sign
+	case 2:
+		text = sign + core + sign
+	case 3:
+		text = "\ufeff" + core
+	default:
+		text = core + "\r\n"
+	}
+	var b []byte
+	if fmtv == 8 || fmtv == 9 || fmtv == 25 || fmtv == 24 {
+		for _, r := range text {
+			if r > 0xffff {
+				continue
+			}
+			b = append(b, byte(r>>8), byte(r))
+		}
+	} else {
+		b = []byte(text)
+	}
+	if len(b) > 140 {
+		b = b[:140]
+	}
+	m.F[coding.Name].U = fmtv
+	m.F[body.Name].B = b
+	m.V(body.Ref).U = uint64(len(b))
+	if u := m.F["TP_udhi"]; u != nil {
+		u.U = 0
+	}
 }
 
 // reportBody turns a deliver into a status report: the report flag is set and the body becomes a binary report of the
